@@ -26,6 +26,7 @@ import (
 	"net/http/httptest"
 	"os"
 	"path/filepath"
+	goruntime "runtime"
 	"strconv"
 	"strings"
 
@@ -67,12 +68,14 @@ type Hot struct {
 }
 
 type Case struct {
-	Hot *Hot `json:"hot,omitempty"`
-	Scripts bool    `json:"scripts"` // the history contains script-level ops: load the PHP function library
-	Names  []string `json:"names"`
-	Consts []string `json:"consts"`
-	CP     []CP     `json:"cp"`
-	Ops    []Op     `json:"ops"`
+	Hot     *Hot     `json:"hot,omitempty"`
+	GC      bool     `json:"gc"`      // collect garbage after every discard (address reuse by later TempVMs)
+	Shared  []string `json:"shared"`  // class names N for which the base defines c12new_N() and class c12child_N extends N
+	Scripts bool     `json:"scripts"` // the history contains script-level ops: load the PHP function library
+	Names   []string `json:"names"`
+	Consts  []string `json:"consts"`
+	CP      []CP     `json:"cp"`
+	Ops     []Op     `json:"ops"`
 }
 
 // one step: R = result of the op: 0 ok / nothing, 1 error(throw), 2 panic, 3 skipped (dead vm);
@@ -88,8 +91,8 @@ type Step struct {
 type Obs struct {
 	Steps []Step `json:"steps"`
 	// CPFind[i] = index of the autoload file FindClassFile(names[i]) returns, -1 if none
-	CPFind []int `json:"cpfind"`
-	Err   string `json:"err,omitempty"`
+	CPFind []int  `json:"cpfind"`
+	Err    string `json:"err,omitempty"`
 }
 
 type world struct {
@@ -215,7 +218,7 @@ func (w *world) parserFor(i int) *parser.Parser {
 
 // declSrc: the declaration of (kind, name); a name with a namespace prefix is declared by its short name after a
 // `namespace NS;` line (only meaningful at the top of a file / parsed string)
-func declSrc(kind, name string) string {
+func declSrc(kind, name string, file int) string {
 	ns := ""
 	if i := strings.LastIndex(name, "\\"); i > 0 {
 		ns = "namespace " + name[:i] + ";\n"
@@ -223,13 +226,20 @@ func declSrc(kind, name string) string {
 	}
 	switch kind {
 	case "c":
-		return ns + "class " + name + " {}"
+		// the marker property tells WHICH definition an object (or an object of a class extending this one) came from
+		return ns + fmt.Sprintf("class %s { public $c12src = %d; }", name, file)
 	case "i":
 		return ns + "interface " + name + " {}"
 	default:
 		return ns + "function " + name + "() { return 1; }"
 	}
 }
+
+// shared code of the "code defined on the base, names resolved per request VM" family: for class name N the base VM
+// defines   function c12new_N() { $o = new N(); return $o->c12src; }   (one AST executed by every VM) and
+//
+//	class c12child_N extends N { public function __construct() {} }   (a base class whose parent is per-VM)
+func sharedName(n string) string { return strings.ReplaceAll(n, "\\", "_") }
 
 func (w *world) doOp(o Op) (st Step) {
 	st.D = -1
@@ -271,6 +281,13 @@ func (w *world) doOp(o Op) (st Step) {
 		}
 		w.temps[o.T] = nil
 		w.tp[o.T] = nil
+		if w.c.GC {
+			// the request is over and nothing of the harness refers to its VM any more: let the collector take it, so
+			// that a TempVM created later may be allocated at the same address (a cache keyed by the VM's address
+			// instead of the VM would then hit for the wrong VM)
+			goruntime.GC()
+			goruntime.GC()
+		}
 		return
 	}
 	v := w.vm(o.VM)
@@ -283,7 +300,7 @@ func (w *world) doOp(o Op) (st Step) {
 		file := fmt.Sprintf("d%d.php", o.File)
 		if o.Route == "parsefile" {
 			// the template-rendering path ($w->view): VM.ParseFile / TempVM.ParseFile on a file that declares something
-			decl := declSrc(o.Kind, o.Name)
+			decl := declSrc(o.Kind, o.Name, o.File)
 			// one template directory per history: the same file id is the same path (same-file re-declaration)
 			if w.tpl == "" {
 				tdir, err := os.MkdirTemp("", "c12tpl-")
@@ -309,7 +326,7 @@ func (w *world) doOp(o Op) (st Step) {
 			// "define via a script statement": a script run on VM v whose statement declares the thing -- eval() of a
 			// declaration, include / require_once of a file that declares it, a declaration inside a function body
 			// (the function is then called) or inside a conditional block
-			decl := declSrc(o.Kind, o.Name)
+			decl := declSrc(o.Kind, o.Name, o.File)
 			var src string
 			switch o.Route {
 			case "eval":
@@ -352,7 +369,7 @@ func (w *world) doOp(o Op) (st Step) {
 			return
 		}
 		if o.Route == "parse" {
-			src := declSrc(o.Kind, o.Name)
+			src := declSrc(o.Kind, o.Name, o.File)
 			p := w.parserFor(o.VM)
 			prog, acl := p.ParseString(src, file)
 			if acl != nil {
@@ -445,6 +462,44 @@ func (w *world) doOp(o Op) (st Step) {
 		_, ctl := prog.GetValue(ctx)
 		if ctl == nil && w.thrown == nil && sb.String() == "1" {
 			st.D = 1
+		}
+		return
+	case "callfn", "newchild":
+		// script level, run on VM v: code DEFINED ON THE BASE VM (one shared AST) whose class name resolves per VM:
+		// callfn: the base function's body does `new N()`; newchild: `new c12child_N()` where the base class extends N.
+		// D = the marker of the definition of N that was used (-1: failed)
+		var src string
+		if o.Op == "callfn" {
+			src = "echo c12new_" + sharedName(o.Name) + "();"
+		} else {
+			src = "$o = new c12child_" + sharedName(o.Name) + "(); echo $o->c12src;"
+		}
+		p := w.parserFor(o.VM)
+		var sb strings.Builder
+		old := data.WriteOutput
+		data.WriteOutput = func(x string) { sb.WriteString(x) }
+		defer func() { data.WriteOutput = old }()
+		st.R = 5
+		st.D = -1
+		prog, acl := p.ParseString(src, "script.zy")
+		if acl != nil {
+			st.Msg = "parse: " + acl.AsString()
+			return
+		}
+		ctx := v.CreateContext(p.GetVariables())
+		w.thrown = nil
+		_, ctl := prog.GetValue(ctx)
+		if ctl == nil && w.thrown == nil {
+			st.Out = sb.String()
+			if n, err := strconv.Atoi(strings.TrimSpace(sb.String())); err == nil {
+				st.D = n
+			} else {
+				st.D = -8
+			}
+		} else if ctl != nil {
+			st.Msg = ctl.AsString()
+		} else {
+			st.Msg = w.thrown.AsString()
 		}
 		return
 	case "newshort":
@@ -708,6 +763,21 @@ func runCase(c *Case) (obs Obs) {
 		php.Load(w.base) // class_exists / interface_exists and the rest of the PHP function library
 	}
 	w.base.AddNamespace("App", dir)
+	for _, n := range c.Shared {
+		src := fmt.Sprintf("function c12new_%s() { $o = new %s(); return $o->c12src; }\nclass c12child_%s extends %s { public function __construct() {} }\n", sharedName(n), n, sharedName(n), n)
+		p := w.p.Clone()
+		prog, acl := p.ParseString(src, "shared.zy")
+		if acl != nil {
+			return Obs{Err: "shared code: parse: " + acl.AsString()}
+		}
+		w.thrown = nil
+		if _, ctl := prog.GetValue(w.base.CreateContext(p.GetVariables())); ctl != nil {
+			return Obs{Err: "shared code: " + ctl.AsString()}
+		}
+		if w.thrown != nil {
+			return Obs{Err: "shared code: " + w.thrown.AsString()}
+		}
+	}
 	for _, nm := range c.Names {
 		idx := -1
 		if fp, ok := w.p.GetClassPathManager().FindClassFile(nm); ok {
